@@ -505,7 +505,10 @@ def embedded_stream(chk):
     from penman import constant
     rng = chk.rng
     pool = ['', 'a', 'a b', 'say "hi"', '"', '""', '~', '~1', 'see "http://x.org/~kim"', 'x"~1', '\\', 'a\\"', 'tab\there', 'nl\nhere',
-            '(', ')', ':r', '/', '#c', 'é', '\u2028', '\x85', '😀', 'a"b"c~e.2', '" ~ "', '\\"~3']
+            '(', ')', ':r', '/', '#c', 'é', '\u2028', '\x85', '😀', 'a"b"c~e.2', '" ~ "', '\\"~3',
+            # every JSON short escape and the control characters written \uXXXX
+            'x\by', 'x\fy', 'x\ry', '\b', '\f\b\n\r\t', 'bell\x07', 'nul\x00', 'esc\x1b[0m', 'del\x7f', '\x1f', 'a/b', 'sol\\/']
+    pool += [chr(c) for c in range(0x20)] + ['p' + chr(c) + 'q' for c in range(0x20)]
     for i in range(300 if chk.tier == 'quick' else 3000):
         pool.append(''.join(rng.choice('ab"\\~ ()/:#1,.\t') for _ in range(rng.randint(1, 8))))
     for x in pool:
